@@ -569,6 +569,18 @@ impl SinkWaitingResponse {
         let mut body_length = None;
         let mut drop_headers =
             HashSet::from(["proxy-connection", "keep-alive", "upgrade"].map(|h| h.to_string()));
+        // Fields nominated by a Connection header are hop-by-hop wherever they stand in the head
+        for h in response.headers.iter() {
+            if h.name.eq_ignore_ascii_case("connection") {
+                if let Ok(x) = std::str::from_utf8(h.value) {
+                    drop_headers.extend(
+                        x.split(',')
+                            .filter(|x| *x != "close")
+                            .map(|x| x.trim().to_lowercase()),
+                    );
+                }
+            }
+        }
         for h in response.headers {
             match (h.name.to_ascii_lowercase().as_str(), self.request_version) {
                 (x, _) if drop_headers.contains(x) => (),
